@@ -454,6 +454,24 @@ def register(gen, T):
         widen = [(" | ".join(p), g or "", r) for p, g, r in match_arms(arms2)]
         scrut3, arms3, _ = first_match(bodies[1], r'scalar_type', e2)
         convert = [(" | ".join(p), g or "", r) for p, g, r in match_arms(arms3)]
+        # loop 4: promotion of the untyped values in the parent scope, from the counter's declaration to the
+        # assertion on the count (fix fe5dd8d removed `assert_eq!(symbols.len(), 1)` from this loop)
+        pl = [m for m in re.finditer(r'\bfor\s+\(\s*name\s*,\s*_\s*\)\s+in\s+&enum_values\s*\{', body)]
+        if len(pl) != 1:
+            raise ExtractError(f"end_enum: expected 1 loop over &enum_values by name, found {len(pl)}")
+        pstart = body.rfind("let mut replacements", 0, pl[0].start())
+        if pstart < 0 or body[pstart:pl[0].start()].count(";") != 1:
+            raise ExtractError("end_enum: `let mut replacements = ..;` does not directly precede the promotion loop")
+        pclose = matching(body, pl[0].end() - 1)
+        pend = body.find(";", pclose)
+        if pend < 0:
+            raise ExtractError("end_enum: no statement after the promotion loop")
+        promote = normws(body[pstart:pend + 1])
+        # loop 5: reinsertion into the enum scope
+        rl = [m for m in re.finditer(r'\bfor\s+\(\s*name\s*,\s*id\s*\)\s+in\s+enum_values\s*\{', body)]
+        if len(rl) != 1:
+            raise ExtractError(f"end_enum: expected 1 consuming loop over enum_values, found {len(rl)}")
+        reinsert = normws(body[rl[0].start():matching(body, rl[0].end() - 1) + 1])
         out = [T.header("EnumRange", [rel + " Context::end_enum"])]
 
         def triples(name, doc, rows):
@@ -466,5 +484,7 @@ def register(gen, T):
         out.append(f"/-- the choice of the underlying type including the error branch -/\ndef select : String := {lean_str(select)}\n\n")
         out.append(triples("widenArms", "arms of the widening match in the value-conversion loop", widen))
         out.append(triples("convertArms", "arms of the conversion to the chosen type", convert))
+        out.append(f"/-- the promotion loop: counter, loop over the names, assertion on the count -/\ndef promoteLoop : String := {lean_str(promote)}\n\n")
+        out.append(f"/-- the reinsertion loop -/\ndef reinsertLoop : String := {lean_str(reinsert)}\n\n")
         out.append(T.footer("EnumRange"))
         return "".join(out)
